@@ -607,3 +607,13 @@ Inductive delivery_runs (reqs : list req) : nat -> list req -> nat -> Prop :=
 | dr_nil m : delivery_runs reqs m [] m
 | dr_run m a b d m' : (a <= m)%nat -> (m <= b)%nat -> (b <= length reqs)%nat ->
     delivery_runs reqs b d m' -> delivery_runs reqs m (firstn (b - a) (skipn a reqs) ++ d) m'.
+
+(* what in-order delivery with duplicate suppression by the transport gives, and all that /repo HEAD's receiver (which
+   never compares sequence numbers) needs: a message may be delivered again as long as no LATER message of the same
+   session has been delivered yet.  The complement is exactly the recorded finding stale-redelivery-applied. *)
+Inductive delivery_latest (reqs : list req) : nat -> list req -> nat -> Prop :=
+| dv_nil m : delivery_latest reqs m [] m
+| dv_next m q d m' : nth_error reqs m = Some q -> delivery_latest reqs (S m) d m' -> delivery_latest reqs m (q :: d) m'
+| dv_dup m k q d m' : (k < m)%nat -> nth_error reqs k = Some q ->
+    (forall j q', (k < j < m)%nat -> nth_error reqs j = Some q' -> cp_key (q_cp q') <> cp_key (q_cp q)) ->
+    delivery_latest reqs m d m' -> delivery_latest reqs m (q :: d) m'.
